@@ -597,7 +597,8 @@ stopsend_scenario(int idx) {
 	ss_target = v->W - 1;
 	tpc_stop_extra = ss_stop_extra;
 	tpc_up(v->W, 0);
-	dst = tp_thread_get(tpc_tp, (size_t)ss_target);
+	dst = (1 == v->notrun_mode) ? tp_thread_get_pvt(tpc_tp) : tp_thread_get(tpc_tp, (size_t)ss_target);	/* mode 1: the pool's virtual thread - nobody
+													 * serves it any more once the workers have left their loops */
 	tp_shutdown(tpc_tp);
 	sc_gate_wait(&in_stop_hook, "in_stop_hook");	/* the destination is out of its loop, inside its stop hook */
 	for (k = 0; k < 3; k ++) {
@@ -608,7 +609,7 @@ stopsend_scenario(int idx) {
 	stop_gate = 1;
 	sc_wait_quiescent();
 	for (k = 0; k < 3; k ++) {
-		if (0 == src[k] && 0 == ss_runs[k]) sc_fail("message-lost", "send #%d (flags %#x) to a thread inside its stop hook reported success, never ran", k, fl[k]);
+		if (0 == src[k] && 0 == ss_runs[k]) sc_fail("message-lost", "send #%d (flags %#x) to %s reported success, never ran", k, fl[k], (1 == v->notrun_mode) ? "the virtual thread of a pool that was shut down (its workers are out of their loops)" : "a thread inside its stop hook");
 		if (0 == src[k] && ss_runs[k] > 1) sc_fail("message-duplicated", "send #%d ran %d times", k, ss_runs[k]);
 		if (0 != src[k] && 0 != ss_runs[k]) sc_fail("failed-send-ran-callback", "send #%d returned %d, callback ran %d time(s)", k, src[k], ss_runs[k]);
 		if (ss_direct[k] && 0 == fl[k]) sc_fail("unexpected-direct-call", "send #%d without a direct-call option ran in the caller", k);
